@@ -33,6 +33,7 @@ RULE = (
     "after the real Mutations.mutation with architecture probability 1 (free choice or a fed method name). non-trivial = at least one returned-action log-prob "
     "row AND one re-evaluated stored-action row were compared with the float64 reference; distinct = distinct case "
     "descriptions"
+    " Added: 40 % of the masked cases keep ONE mask buffer (int8 / bool / float32 / int64; array, tensor, object array) and rewrite it in place between calls; wide spaces (MultiDiscrete / MultiBinary with 8-12 components, a 160-bit MultiBinary, Discrete up to 19, Box up to 12 dims); 12 % of the non-Box cases use weight scale 30 (confident policies)"
 )
 ASSUMPTIONS = [
     "the policy's distribution is the one defined by the head network's output captured by a tap on its forward during "
